@@ -17,10 +17,22 @@
      replaced only by a validly signed one with a strictly higher counter; registers with the same
      base merge to the union of their (valid) operations; transaction sets merge to the union.
 
+   * get_closest_k_value_local_peers (driver.rs): the node itself followed by the K_VALUE - 1 nearest
+     routing-table peers -- K_VALUE entries INCLUDING self; the routing table is a list of peers with
+     their XOR distance to the node, [closest] sorts it;
+   * the responsible range: the record store's range (set_distance_range) and the fetcher's range
+     (ReplicationFetcher::distance_range) are two fields; the fetcher's is ASSIGNED the store's current
+     value where the code does it -- after every LocalSwarmCmd::PutLocalRecord (cmd.rs) -- and is
+     otherwise left alone (the density tick of driver.rs sets both at once; not reachable here);
+   * ReplicationFetcher::add_keys' range filter: when the number of advertised entries that survive
+     the held filter is exactly one, that entry takes the "new data" fast path which skips the range
+     check (C08's F15); otherwise entries farther than the fetcher's range are dropped.
+
    Abstractions: keys, peers, contents are identifiers; a record's content carries whether it is
    valid for the key it is stored under (signatures / content address are C04, C06, C07);
-   [H] maps a stored content to the identifier of the content hash used in its record-type tag.
-   Closest-peer and candidate lists are data (how they are computed is C11). *)
+   [H] maps a stored content to the identifier of the content hash used in its record-type tag;
+   [D p k] is the distance between node p and key k (any function). Candidate lists are data
+   (how they are computed is C11). *)
 From Coq Require Import List NArith Bool.
 From V Require Import gen.Consts.
 Import ListNotations.
@@ -67,8 +79,20 @@ Definition content_eqb (a b : content) : bool :=
   | _, _ => false
   end.
 
+(* K_VALUE, re-read from the source of the pinned libp2p-kad *)
+Definition KVAL : N := Consts.repl_k_value.
+
+(* the routing table sorted by distance to the node (insertion sort) *)
+Fixpoint insert_by_dist (x : peer * N) (l : list (peer * N)) : list (peer * N) :=
+  match l with
+  | [] => [x]
+  | y :: r => if snd x <=? snd y then x :: y :: r else y :: insert_by_dist x r
+  end.
+Definition sort_by_dist (l : list (peer * N)) : list (peer * N) := fold_right insert_by_dist [] l.
+
 Section WithHash.
 Variable H : content -> N.
+Variable D : peer -> key -> N.
 
 Definition type_of (c : content) : rtype :=
   match c with
@@ -80,10 +104,16 @@ Definition type_of (c : content) : rtype :=
 Record node := mkNode {
   self : peer;
   held : list (key * content);          (* the store index with what `get` returns *)
-  closest : list peer;                  (* get_closest_k_value_local_peers: self first *)
+  table : list (peer * N);              (* routing table: every peer with its XOR distance to self *)
   cands : list peer;                    (* get_replicate_candidates(self) *)
-  inflight : list (key * rtype)         (* on_going_fetches keys *)
+  inflight : list (key * rtype);        (* on_going_fetches keys *)
+  store_range : option N;               (* NodeRecordStore::responsible_distance_range *)
+  fetch_range : option N                (* ReplicationFetcher::distance_range *)
 }.
+
+(* get_closest_k_value_local_peers: once(self).chain(peers by distance).take(K_VALUE) *)
+Definition closest (n : node) : list peer :=
+  self n :: map fst (firstn (N.to_nat KVAL - 1) (sort_by_dist (table n))).
 
 Fixpoint lookup (k : key) (l : list (key * content)) : option content :=
   match l with
@@ -98,9 +128,25 @@ Fixpoint update (k : key) (c : content) (l : list (key * content)) : list (key *
   end.
 
 Definition set_held (n : node) (h : list (key * content)) : node :=
-  mkNode (self n) h (closest n) (cands n) (inflight n).
+  mkNode (self n) h (table n) (cands n) (inflight n) (store_range n) (fetch_range n).
 Definition set_inflight (n : node) (f : list (key * rtype)) : node :=
-  mkNode (self n) (held n) (closest n) (cands n) f.
+  mkNode (self n) (held n) (table n) (cands n) f (store_range n) (fetch_range n).
+Definition set_table (n : node) (t : list (peer * N)) : node :=
+  mkNode (self n) (held n) t (cands n) (inflight n) (store_range n) (fetch_range n).
+Definition set_cands (n : node) (l : list peer) : node :=
+  mkNode (self n) (held n) (table n) l (inflight n) (store_range n) (fetch_range n).
+Definition set_store_range (n : node) (r : option N) : node :=
+  mkNode (self n) (held n) (table n) (cands n) (inflight n) r (fetch_range n).
+Definition set_fetch_range (n : node) (r : option N) : node :=
+  mkNode (self n) (held n) (table n) (cands n) (inflight n) (store_range n) r.
+
+(* cmd.rs, end of PutLocalRecord: `if let Some(distance) = store.get_farthest_replication_distance()
+   { replication_fetcher.set_replication_distance_range(distance) }` -- an assignment *)
+Definition sync_range (n : node) : node :=
+  match store_range n with
+  | Some r => set_fetch_range n (Some r)
+  | None => n
+  end.
 
 (* ---- what a node advertises ---- *)
 Definition advert (n : node) : list (key * rtype) :=
@@ -134,14 +180,30 @@ Fixpoint wanted (n : node) (seen : list (key * rtype)) (keys : list (key * rtype
 Definition accepts_holder (n : node) (holder : peer) : bool :=
   mem holder (closest n) && negb (holder =? self n).
 
+(* advertised entries whose KEY is not held: add_keys' `new_incoming_keys` *)
+Definition unheld (n : node) (keys : list (key * rtype)) : list (key * rtype) :=
+  filter (fun x => match lookup (fst x) (held n) with Some _ => false | None => true end) keys.
+
+(* within the fetcher's range (no range set: everything is) *)
+Definition in_range (n : node) (k : key) : bool :=
+  match fetch_range n with
+  | None => true
+  | Some r => D (self n) k <=? r
+  end.
+
+(* add_keys' range filter: skipped by the single-new-key fast path, applied otherwise *)
+Definition ranged (n : node) (keys : list (key * rtype)) : list (key * rtype) :=
+  if Nat.eqb (length (unheld n keys)) 1 then keys
+  else filter (fun x => in_range n (fst x)) keys.
+
 (* the parallel-fetch cap is not reached: everything wanted is fetched at once *)
 Definition fits (cap : N) (n : node) (keys : list (key * rtype)) : bool :=
-  N.of_nat (length (inflight n) + length (wanted n [] keys)) <=? cap.
+  N.of_nat (length (inflight n) + length (wanted n [] (ranged n keys))) <=? cap.
 
 Definition on_replicate (n : node) (holder : peer) (keys : list (key * rtype))
   : node * list msg :=
   if accepts_holder n holder then
-    let w := wanted n [] keys in
+    let w := wanted n [] (ranged n keys) in
     (set_inflight n (inflight n ++ w), map (fun x => Fetch (self n) holder (fst x)) w)
   else (n, []).
 
@@ -169,11 +231,27 @@ Definition merge_in (old : option content) (c : content) : option content :=
 Definition clear_key (k : key) (f : list (key * rtype)) : list (key * rtype) :=
   filter (fun x => negb (fst x =? k)) f.
 
-Definition accept (n : node) (k : key) (c : content) : node :=
-  match merge_in (lookup k (held n)) c with
-  | Some c' => set_inflight (set_held n (update k c' (held n))) (clear_key k (inflight n))
-  | None => n
+(* whether store_replicated_in_record reaches `put_local_record` (LocalSwarmCmd::PutLocalRecord):
+   whenever the store changes, and also when a transaction set with at least one valid transaction
+   brings nothing new (validate_merge_and_store_transactions re-puts the merged set regardless) *)
+Definition puts (old : option content) (c : content) : bool :=
+  match merge_in old c with
+  | Some _ => true
+  | None => match old, c with
+            | Some (CTxs _), CTxs (_ :: _) => true
+            | _, _ => false
+            end
   end.
+
+(* PutLocalRecord: the record is stored, the fetcher forgets the key (notify_about_new_put), and the
+   fetcher's range is re-assigned from the store's *)
+Definition accept (n : node) (k : key) (c : content) : node :=
+  let old := lookup k (held n) in
+  let n1 := match merge_in old c with
+            | Some c' => set_inflight (set_held n (update k c' (held n))) (clear_key k (inflight n))
+            | None => if puts old c then set_inflight n (clear_key k (inflight n)) else n
+            end in
+  if puts old c then sync_range n1 else n1.
 
 Definition kt_eqb (a b : key * rtype) : bool := (fst a =? fst b) && rtype_eqb (snd a) (snd b).
 
@@ -231,8 +309,9 @@ Inductive op :=
 | OAdvert (to holder : peer) (keys : list (key * rtype))   (* a replication list arrives *)
 | ODeliver (m : msg)                                       (* an undelivered message is delivered *)
 | ODrop (m : msg)                                          (* ... is lost *)
-| OSetClosest (p : peer) (l : list peer)                   (* the routing table of p changed *)
-| OSetCands (p : peer) (l : list peer).                    (* ... or its responsible range did *)
+| OSetTable (p : peer) (l : list (peer * N))               (* the routing table of p changed *)
+| OSetCands (p : peer) (l : list peer)                     (* ... hence its replication candidates *)
+| OSetRange (p : peer) (r : N).                            (* the record store's range of p is set *)
 
 Definition step (s : sys) (o : op) : sys :=
   match o with
@@ -249,14 +328,19 @@ Definition step (s : sys) (o : op) : sys :=
   | OAdvert to holder keys => deliver_msg s (Replicate holder to holder keys)
   | ODeliver m => deliver_msg (mkSys (nodes s) (remove_msg m (pool s))) m
   | ODrop m => mkSys (nodes s) (remove_msg m (pool s))
-  | OSetClosest p l =>
+  | OSetTable p l =>
       match get_node p (nodes s) with
-      | Some n => mkSys (put_node (mkNode (self n) (held n) l (cands n) (inflight n)) (nodes s)) (pool s)
+      | Some n => mkSys (put_node (set_table n l) (nodes s)) (pool s)
       | None => s
       end
   | OSetCands p l =>
       match get_node p (nodes s) with
-      | Some n => mkSys (put_node (mkNode (self n) (held n) (closest n) l (inflight n)) (nodes s)) (pool s)
+      | Some n => mkSys (put_node (set_cands n l) (nodes s)) (pool s)
+      | None => s
+      end
+  | OSetRange p r =>
+      match get_node p (nodes s) with
+      | Some n => mkSys (put_node (set_store_range n (Some r)) (nodes s)) (pool s)
       | None => s
       end
   end.
@@ -283,6 +367,13 @@ Fixpoint tab_hash (tab : list (content * N)) (c : content) : N :=
   | (c', h) :: r => if content_eqb c c' then h else tab_hash r c
   end.
 
+(* the distances the harness computed (SHA-256 XOR, independently of the repository), as a table *)
+Fixpoint tab_dist (tab : list (peer * key * N)) (p : peer) (k : key) : N :=
+  match tab with
+  | [] => 0
+  | (p', k', d) :: r => if (p =? p') && (k =? k') then d else tab_dist r p k
+  end.
+
 Definition msgs_sub (a b : list msg) : bool := forallb (fun x => existsb (msg_eqb x) b) a.
 Definition msgs_eqb (a b : list msg) : bool :=
   msgs_sub a b && msgs_sub b a && Nat.eqb (length a) (length b).
@@ -302,15 +393,27 @@ Definition in_pool (o : op) (s : sys) : bool :=
   | _ => true
   end.
 
-(* what was observed of a node after a step: what it holds, and the fetcher's in-flight (key, type)s *)
-Definition obs_node := (peer * list (key * content) * list (key * rtype))%type.
+Fixpoint peers_eqb (a b : list peer) : bool :=
+  match a, b with
+  | [], [] => true
+  | x :: r, y :: r' => (x =? y) && peers_eqb r r'
+  | _, _ => false
+  end.
+
+(* what was observed of a node after a step: what it holds, the fetcher's in-flight (key, type)s, and
+   what get_closest_k_value_local_peers answered (in its order) *)
+Definition obs_node := (peer * list (key * content) * list (key * rtype) * list peer)%type.
 
 Definition holds_ok (ns : list node) (obs : list obs_node) : bool :=
-  forallb (fun pf => match get_node (fst (fst pf)) ns with
-                     | Some n => held_eqb (held n) (snd (fst pf)) &&
-                                 kts_eqb (inflight n) (snd pf) &&
-                                 Nat.eqb (length (inflight n)) (length (snd pf))
-                     | None => false end) obs.
+  forallb (fun pf => match pf with
+                     | (p, h, f, cl) =>
+                       match get_node p ns with
+                       | Some n => held_eqb (held n) h &&
+                                   kts_eqb (inflight n) f &&
+                                   Nat.eqb (length (inflight n)) (length f) &&
+                                   peers_eqb (closest n) cl
+                       | None => false end
+                     end) obs.
 
 (* one observed step: the op, the undelivered messages after it, every node's store and in-flight set *)
 Definition obs_step := (op * list msg * list obs_node)%type.
@@ -320,19 +423,16 @@ Definition obs_step := (op * list msg * list obs_node)%type.
    entry is advertised with it (the real fetcher then leaves the in-flight one QUEUED for the
    advertising holder, which this model does not carry), and the parallel-fetch cap is not reached.
    Outside it the correspondence stops comparing (the oracle of the property still judges the run). *)
-Definition unheld (n : node) (keys : list (key * rtype)) : list (key * rtype) :=
-  filter (fun x => match lookup (fst x) (held n) with Some _ => false | None => true end) keys.
-
-Definition list_outside_envelope (cap : N) (n : node) (holder : peer) (keys : list (key * rtype)) : bool :=
+Definition list_outside_envelope (D : peer -> key -> N) (cap : N) (n : node) (holder : peer) (keys : list (key * rtype)) : bool :=
   accepts_holder n holder &&
   ((Nat.leb 2 (length (unheld n keys)) && existsb (fun x => kt_mem x (inflight n)) (unheld n keys))
-   || negb (fits cap n keys)).
+   || negb (fits D cap n keys)).
 
-Definition outside_envelope (cap : N) (s : sys) (o : op) : bool :=
+Definition outside_envelope (D : peer -> key -> N) (cap : N) (s : sys) (o : op) : bool :=
   match o with
   | ODeliver (Replicate _ to holder keys) | OAdvert to holder keys =>
       match get_node to (nodes s) with
-      | Some n => list_outside_envelope cap n holder keys
+      | Some n => list_outside_envelope D cap n holder keys
       | None => false
       end
   | _ => false
@@ -340,36 +440,38 @@ Definition outside_envelope (cap : N) (s : sys) (o : op) : bool :=
 
 Definition CAP : N := Consts.fetcher_max_parallel.    (* MAX_PARALLEL_FETCH, re-read from the source *)
 
-Fixpoint agree_steps (H : content -> N) (s : sys) (ops : list obs_step) : bool :=
+Fixpoint agree_steps (H : content -> N) (D : peer -> key -> N) (s : sys) (ops : list obs_step) : bool :=
   match ops with
   | [] => true
   | (o, p, hs) :: r =>
-      if outside_envelope CAP s o then true else
-      let s' := step H s o in
-      in_pool o s && msgs_eqb (pool s') p && holds_ok (nodes s') hs && agree_steps H s' r
+      if outside_envelope D CAP s o then true else
+      let s' := step H D s o in
+      in_pool o s && msgs_eqb (pool s') p && holds_ok (nodes s') hs && agree_steps H D s' r
   end.
 
 (* number of observed steps compared before the envelope was left (all of them if it never was) *)
-Fixpoint compared_steps (H : content -> N) (s : sys) (ops : list obs_step) (i : N) : N :=
+Fixpoint compared_steps (H : content -> N) (D : peer -> key -> N) (s : sys) (ops : list obs_step) (i : N) : N :=
   match ops with
   | [] => i
   | (o, p, hs) :: r =>
-      if outside_envelope CAP s o then i else compared_steps H (step H s o) r (i + 1)
+      if outside_envelope D CAP s o then i else compared_steps H D (step H D s o) r (i + 1)
   end.
 
 (* index of the first observed step the model disagrees with (diagnostics) *)
-Fixpoint first_bad (H : content -> N) (s : sys) (ops : list obs_step) (i : N) : option N :=
+Fixpoint first_bad (H : content -> N) (D : peer -> key -> N) (s : sys) (ops : list obs_step) (i : N) : option N :=
   match ops with
   | [] => None
   | (o, p, hs) :: r =>
-      if outside_envelope CAP s o then None else
-      let s' := step H s o in
+      if outside_envelope D CAP s o then None else
+      let s' := step H D s o in
       if in_pool o s && msgs_eqb (pool s') p && holds_ok (nodes s') hs
-      then first_bad H s' r (i + 1) else Some i
+      then first_bad H D s' r (i + 1) else Some i
   end.
 
-Definition agree_case (tab : list (content * N)) (init : list node) (ops : list obs_step) : bool :=
-  agree_steps (tab_hash tab) (mkSys init []) ops.
+Definition agree_case (tab : list (content * N)) (dtab : list (peer * key * N)) (init : list node)
+  (ops : list obs_step) : bool :=
+  agree_steps (tab_hash tab) (tab_dist dtab) (mkSys init []) ops.
 
-Definition show_case (tab : list (content * N)) (init : list node) (ops : list obs_step) :=
-  first_bad (tab_hash tab) (mkSys init []) ops 0.
+Definition show_case (tab : list (content * N)) (dtab : list (peer * key * N)) (init : list node)
+  (ops : list obs_step) :=
+  first_bad (tab_hash tab) (tab_dist dtab) (mkSys init []) ops 0.
